@@ -37,7 +37,9 @@ func c17define() c17prog {
 	})
 	wrap := opt.NewCommand("wrap", "a wrapper")
 	wrap.UnsetOptions().SetUnknownMode(Pass)
+	wrap.Bool("wopt", false, opt.Alias("wo")) // an option of the wrapper itself
 	wrap.SetCommandFn(fn)
+	wrap.NewCommand("wsub", "below the wrapper").SetCommandFn(fn)
 	opt.NewCommand("cmdother", "another").SetCommandFn(fn)
 	opt.HelpCommand("help", opt.Alias("?"))
 	return c17prog{opt, ran}
@@ -49,12 +51,14 @@ var c17optsCmd = []string{"flag", "f", "str", "string", "choice", "cho", "level"
 var c17cmdsRoot = []string{"cmd", "wrap", "cmdother", "help"}
 var c17cmdsCmd = []string{"sub", "help", "alpha", "alps", "beta"}
 var c17cmdsSub = []string{"help"}
+var c17optsWrap = []string{"wopt", "wo"}
+var c17cmdsWrap = []string{"wsub", "help"}
 var c17dynamic = []string{"README.adoc", "zebra"}
 
 func VerifC17_Completion() {
 	vNativeReset()
 	zsh := vBool("zsh")
-	shape := vInt("earlier", 0, 5)
+	shape := vInt("earlier", 0, 7)
 	w := vString("w")
 	vAssume(vMatches(w, `[^\t\n\f\r ]*`))
 	vAssume(!strings.Contains(w, "="))
@@ -77,6 +81,14 @@ func VerifC17_Completion() {
 	case 5:
 		earlier, prior = "cmd sub ", []string{"cmd", "sub"}
 		opts, cmds = c17optsCmd, c17cmdsSub
+	case 6:
+		// a wrapper (UnsetOptions) offers its own options only
+		earlier, prior = "wrap ", []string{"wrap"}
+		opts, cmds = c17optsWrap, c17cmdsWrap
+	case 7:
+		// and hands them down to its own sub command
+		earlier, prior = "wrap wsub ", []string{"wrap", "wsub"}
+		opts, cmds = c17optsWrap, c17cmdsSub
 	}
 	vSetenv("COMP_LINE", "prog "+earlier+w)
 	if zsh {
